@@ -413,6 +413,7 @@ def extra_C12(cases, impl):
 # ---------------------------------------------------------------- file level (C05, C07, C08, C10, C11, C12)
 FILE_AMBIG = b"NnRYKM-*."      # what may stand in a sequence line: printable, no whitespace, not '>' '+' '@'
 CONTAINERS = ["fa", "faw", "facrlf", "fq", "fagz", "fqgz", "fagzm", "fagz0"]
+ALIGNED = ["fagza", "fagzb", "fagzc", "fagzd"]
 
 def gen_file_seq(r, k, maxlen=120, allow_empty=True):
     c = r.below(12)
@@ -464,6 +465,19 @@ def gen_C05(r, tier):
         other = r.pick([c for c in CONTAINERS if not (c.startswith("fq") and any(len(x) == 0 for x in recs))])
         w2 = r.pick(["auto", "batch"] + (["mmap"] if norm else []))
         cases.append(base % (pick_threads(r), r.pick([1, 50, 100, 1000, 4294967296]), w2, other))
+    # both writers on values that are exact ties at the 7th decimal (c / 128m with c odd), and on the record boundaries of
+    # a gzip file whose second member starts around a read-block boundary
+    for total in [128, 256, 384, 512, 640]:
+        k = r.pick([2, 3, 4])
+        recs = [bytes(r.choices(NUC, k=total + k - 1)) for _ in range(1 + r.below(3))] + [bytes(r.choices(NUC, k=128 + k - 1))]
+        base = "ofile %d 1 %d 2c %%d %%d %%s %%s 60 %s" % (k, r.below(2), hxlist(recs))
+        cases.append(base % (pick_threads(r), 4294967296, "mmap", "fa"))
+        cases.append(base % (pick_threads(r), r.pick([1, 1000, 4294967296]), "batch", r.pick(["fa", "fagz"])))
+    for cont in ALIGNED:
+        recs = [bytes(r.choices(NUC, k=1 + r.below(300))) for _ in range(6 + r.below(60))]
+        base = "ofile 2 1 %d 2c %%d %%d %%s %%s 60 %s" % (r.below(2), hxlist(recs))
+        cases.append(base % (pick_threads(r), 4294967296, "mmap", cont))
+        cases.append(base % (pick_threads(r), 1000, "batch", "fa"))
     for nrec in ([300, 700, 1500, 1100] if tier == "quick" else [300, 700, 1500, 3000, 5000, 2000, 1100, 900]):
         recs = many_records(r, nrec)
         for writer, norm in (("mmap", 1), ("batch", r.below(2))):
@@ -713,12 +727,13 @@ def gen_C06(r, tier):
                     recs.append((rid, seq)); text += hdr + seq + eol
                 exp = ",".join(hx(i_) + ":" + hx(s_) for i_, s_ in recs)
                 cases.append("read x.fa fa %s %s" % (hx(bytes(text)), exp))
-    # the same record lists through the harness' containers, among them a two-member gzip whose first member ends one
-    # byte before a 32 KiB boundary of the compressed file (stored blocks, padded in a description)
-    for cont in CONTAINERS + ["fagza", "fagza", "fagza"]:
+    # the same record lists through the harness' containers, among them two-member gzip files whose second member
+    # starts 1, 2 or 3 bytes before, or exactly on, a 64 KiB boundary of the compressed file (hence of every smaller
+    # power-of-two read block; stored blocks, padded in a description)
+    for cont in CONTAINERS + ALIGNED:
         for _ in range(2 if tier == "quick" else 12):
             recs = gen_records(r, 3, nmax=30, maxlen=200, container=cont)
-            if cont == "fagza": recs = [bytes(r.choices(NUC, k=1 + r.below(300))) for _ in range(6 + r.below(60))]
+            if cont in ALIGNED: recs = [bytes(r.choices(NUC, k=1 + r.below(300))) for _ in range(6 + r.below(60))]
             cases.append("readc %s %s" % (cont, hxlist(recs)))
     for _ in range(n):
         fq = r.below(3) == 0
@@ -1129,11 +1144,11 @@ PROPS = {
                 rule="record level: seeded records x k in 1..=7 x square sizes {1,2,3,9,16,1000,2^20,random} x raw/normalised; triples compared bit for bit (x, y with the Flocq model and the exact dyadic spec; f with the oligo model); each record also goes through the oligo vector: f must equal it and (x, y) must not depend on the record; non-trivial = some f non-zero",
                 assumptions=["Rust f64 arithmetic is IEEE-754 binary64 round-to-nearest-even"]),
     "C05": dict(gen=gen_C05, needs=["harness"], sample_limit={"quick": 32, "thorough": 96}, sample_maxlen=700, extra=extra_C05,
-                rule="file level: seeded record lists (0..40 records, empty records, all-ambiguous records) x k 1..5 x threads {default,1..16} x memory limit {1,50,100,1000,4 GiB} x header x delimiters {comma,tab,space,empty,'::',' | ',';;;;'} x writer {auto,mmap,batch} x container {FASTA, wrapped FASTA, CRLF FASTA, FASTQ, gzip, multi-member gzip, stored gzip}; every record list is run twice with different settings and the bytes must agree; then controlled-scheduler replays on the mapped writer (W<=4 workers, R<=6 records, random schedule prefix + round-robin tail): logged TAKE/WRITE/EXIT trace, write offsets and file bytes must equal the Coq schedule model's; thorough enumerates every schedule word for (W,R) in {(2,2),(2,3),(3,3),(2,4)}; non-trivial = non-empty output",
+                rule="file level: seeded record lists (0..40 records, empty records, all-ambiguous records) x k 1..5 x threads {default,1..16} x memory limit {1,50,100,1000,4 GiB} x header x delimiters {comma,tab,space,empty,'::',' | ',';;;;'} x writer {auto,mmap,batch} x container {FASTA, wrapped FASTA, CRLF FASTA, FASTQ, gzip, multi-member gzip, stored gzip}; every record list is run twice with different settings and the bytes must agree; records with 128m windows (values that are exact ties at the 7th decimal) through both writers; two-member gzip files whose second member starts 3, 2, 1 or 0 bytes before a 64 KiB boundary of the compressed file; files of 300..1500 (thorough: 5000) records; then controlled-scheduler replays on the mapped writer (W<=4 workers, R<=6 records, random schedule prefix + round-robin tail): logged TAKE/WRITE/EXIT trace, write offsets and file bytes must equal the Coq schedule model's; thorough enumerates every schedule word for (W,R) in {(2,2),(2,3),(3,3),(2,4)}; non-trivial = non-empty output",
                 assumptions=["Mutex-protected reader and one write_at per row are atomic steps (below hook granularity is not modelled)",
                              "rayon's par_iter().map().collect() preserves order (batch writer)"]),
     "C06": dict(gen=gen_C06, needs=["harness"], sample_limit={"quick": 60, "thorough": 200}, sample_maxlen=1500,
-                rule="files whose record headers start exactly on, one before and one after multiples of 8192 bytes (the BufReader block size), LF and CRLF; then seeded well-formed record lists (ids over a wide printable alphabet, optional space/tab descriptions, lengths 0..3000, empty FASTA records) printed as FASTA (wrap widths none,1,7,60,80,random; LF or CRLF; with or without final terminator; optional empty sequence line) or FASTQ (single-line or wrapped, '+' line with or without id, quality lines that may start with @ or +), plain or gzip split at random byte positions into 1..6 members (some stored, some deflated, optional empty final member); every documented suffix form with and without .gz and names that must not be recognised; the implementation's records, numbering and statistics are compared with the line-parser model and with the generating list itself; non-trivial = at least one record",
+                rule="files whose record headers start exactly on, one before and one after multiples of 8192 bytes (the BufReader block size), LF and CRLF; then seeded well-formed record lists (ids over a wide printable alphabet, optional space/tab descriptions, lengths 0..3000, empty FASTA records) printed as FASTA (wrap widths none,1,7,60,80,random; LF or CRLF; with or without final terminator; optional empty sequence line) or FASTQ (single-line or wrapped, '+' line with or without id, quality lines that may start with @ or +), plain or gzip split at random byte positions into 1..6 members (some stored, some deflated, optional empty final member); every documented suffix form with and without .gz and names that must not be recognised; record lists through the harness' containers incl. two-member stored gzip files whose second member starts 3, 2, 1 or 0 bytes before a 64 KiB boundary of the compressed file (`readc`); the implementation's records, numbering and statistics are compared with the line-parser model and with the generating list itself; non-trivial = at least one record",
                 nontrivial=lambda c, o: "|" in o and o.split("|")[1] != "",
                 assumptions=["the DEFLATE codec itself is not modelled (only the member structure)", "bio 2.0.3's parsers are third-party code, modelled from their source and validated here",
                              "non-UTF-8 input is outside 'well-formed' and never generated"]),
